@@ -52,13 +52,25 @@ def main(sid, props):
     meta['needs_to_manifest'] = notes[:1500]
     # ---- my checks against it
     meta['checks'] = {}
-    st = sh(['git', '-C', REPO, 'status', '--porcelain', '--untracked-files=no']).stdout.strip()
-    assert not st, 'repo dirty: ' + st
+    scratch = bool(os.environ.get('SEEDVERIFY_SCRATCH'))
+    tmp2 = None
+    if scratch:
+        # a background soak is using /repo: run the checks against a scratch worktree with the patch applied
+        # (VERIF_REPO) instead of patching /repo itself
+        tmp2 = tempfile.mkdtemp(prefix='seedc-')
+        target = os.path.join(tmp2, 'w')
+        subprocess.check_call(['git', '-C', REPO, 'worktree', 'add', '-q', '--detach', target, 'HEAD'])
+    else:
+        target = REPO
+        st = sh(['git', '-C', REPO, 'status', '--porcelain', '--untracked-files=no']).stdout.strip()
+        assert not st, 'repo dirty: ' + st
     try:
-        a = sh(['git', '-C', REPO, 'apply', os.path.join(d, 'patch.diff')]); assert a.returncode == 0, a.stdout
+        a = sh(['git', '-C', target, 'apply', os.path.join(d, 'patch.diff')]); assert a.returncode == 0, a.stdout
         for prop in props:
             t0 = time.time()
             env = dict(os.environ, VERIF_MAX_REPORT='3', VERIF_EVIDENCE_DIR=os.path.join(d, '.evidence-of-run-against-seed'))
+            if scratch:
+                env['VERIF_REPO'] = target
             p = sh([os.path.join(VERIF, 'vcheck'), prop, 'quick'], cwd=VERIF, env=env)
             classes = [l.strip()[7:] for l in p.stdout.split('\n') if l.strip().startswith('class: ')]
             viol = [l for l in p.stdout.split('\n') if l.startswith('VIOLATION ')]
@@ -70,9 +82,14 @@ def main(sid, props):
                 if os.path.exists(path):
                     shutil.move(path, keep)
     finally:
-        sh(['git', '-C', REPO, 'checkout', '--', '.'])
+        if scratch:
+            subprocess.call(['git', '-C', REPO, 'worktree', 'remove', '--force', target], stdout=subprocess.DEVNULL, stderr=subprocess.DEVNULL)
+            shutil.rmtree(tmp2, ignore_errors=True)
+        else:
+            sh(['git', '-C', REPO, 'checkout', '--', '.'])
+    how = ('scratch worktree of /repo HEAD with patch.diff applied, VERIF_REPO=<it> ' if scratch else 'git -C /repo apply patch.diff; ')
     meta['what_was_run'] = ['fresh scratch worktree of /repo HEAD: build without change -> demo; git apply patch.diff; build; pytest tests/ on that build; demo',
-                            'git -C /repo apply patch.diff; ' + '; '.join('./vcheck %s quick' % p for p in props) + '; git -C /repo checkout -- .']
+                            how + '; '.join('./vcheck %s quick' % p for p in props) + ('' if scratch else '; git -C /repo checkout -- .')]
     json.dump(meta, open(os.path.join(d, 'meta.json'), 'w'), indent=1)
     print(sid, 'confirmed=%s' % meta['confirmed'], 'tests', meta['tests_with_change'], 'demo', meta['demo_exit_without_change'], meta['demo_exit_with_change'],
           {k: (v['caught'], v['violation_classes'][:2]) for k, v in meta['checks'].items()})
